@@ -190,6 +190,24 @@ def scenFragRt (path ps obs : String) : Verdict :=
     else if a == obs then .ok
     else .prop "C02" ("fragmentation + in-order reassembly through the " ++ path ++ " path is not the identity") a
 
+/-- `frt <can|usart> <packet>`: every frame of the fragmentation survives the codec round trip unchanged
+(`C08_specFrames_canCanonical` + `C08_fromCan_toCan`; `C10_frames_wf` + `C09_fromUsart_toUsart`) -/
+def scenFrt (path ps obs : String) : Verdict :=
+  match parsePacket ps with
+  | none => .bad "parse"
+  | some p =>
+    if p.data.length > 28672 then .note "beyond the 4096-frame limit" else
+    let fs := specFrames p
+    -- self-check of the closed form on small packets: run the model codecs
+    let selfOk := p.data.length > 64 || fs.all fun f =>
+      if path == "can" then (match toCan f with | .ok c => fromCan c == .ok f | _ => false)
+      else (match toUsart f with | .ok u => fromUsart u == .ok f | _ => false)
+    let a := "ok " ++ toString fs.length
+    if !selfOk then .bad "MODEL: a frame of specFrames does not round-trip"
+    else if a == obs then .ok
+    else .prop (if path == "can" then "C08" else "C09")
+      "a frame produced by fragmentation does not survive the codec round trip unchanged" a
+
 def showBuild : Res BErr Packet → String
   | .ok p => "ok(" ++ showPacketShort p ++ ")"
   | .err e => "err(" ++ showBErr e ++ ")"
@@ -785,6 +803,7 @@ def judge (inp obs : String) : Verdict :=
   | ["can_rt", f] => scenRt "can" f obs
   | ["to_frames", p] => scenToFrames p obs
   | ["frag_rt", path, p] => scenFragRt path p obs
+  | ["frt", path, p] => scenFrt path p obs
   | ["builder", f0, fs] => scenBuilder f0 fs obs
   | ["ev_enc", e] => scenEvEnc e obs
   | ["ev_rt", e] => scenEvRt e obs
